@@ -622,6 +622,10 @@ fn simulate_setup_mega(mut r: Rng, setup: Setup, profile: Profile, oracles: Orac
         // attempt holds surplus symbols (and, with enough of them, takes the GF(2)-only path)
         links[0] = buffering_link(&mut r);
     }
+    // moderate floods: a small single block whose transfer opens with 6..24 x (K + 30) repair
+    // packets handed over in one batch (far more rows than the solver's usual few surplus ones)
+    let moderate = mega.is_none() && profile != Profile::C18 && ks.len() == 1 && ks[0] <= 60 && r.chance(1, 30);
+    let mega = if moderate { Some((ks[0] + 30) * r.range(6, 24) as u32) } else { mega };
     let (p_snapshot, p_check, p_poke) = match profile {
         Profile::C08 => (25, 40, 25),
         Profile::C01 => (10, 0, 5),
@@ -649,6 +653,9 @@ fn simulate_setup_mega(mut r: Rng, setup: Setup, profile: Profile, oracles: Orac
     };
     if matches!(profile, Profile::C01 | Profile::C08) {
         s.faults.touch("hoarded_flood_over_65536_rows");
+    }
+    if profile != Profile::C18 {
+        s.faults.touch("moderate_flood_in_one_batch");
     }
     for k in ["drop_iid", "drop_burst", "partition_drop", "duplicate", "reorder", "stalled_arrival", "late_join"] {
         s.faults.touch(k);
@@ -724,7 +731,7 @@ fn run_phases(s: &mut Sim, ks: &[u32]) -> Result<(), Fail> {
         for rx in 0..s.ex.nrx() {
             s.deliver(rx, batch.clone())?;
         }
-        s.faults.inc("hoarded_flood_over_65536_rows");
+        s.faults.inc(if n > 60_000 { "hoarded_flood_over_65536_rows" } else { "moderate_flood_in_one_batch" });
     }
     let skip_to_final = s.mega.is_some();
     if !skip_to_final {
